@@ -15,7 +15,7 @@ def corpus(ctx):
     for k in range(n):
         progs["gen_%d_%d" % (ctx.seed, k)] = Gen(ctx.seed * 1000003 + k).program()
     for k in range(n // 3):                # generator programs that also use HashMap values
-        progs["genmap_%d_%d" % (ctx.seed, k)] = Gen(ctx.seed * 1000003 + 500000 + k, features={"maps": True}).program()
+        progs["genmap_%d_%d" % (ctx.seed, k)] = Gen(ctx.seed * 1000003 + 500000 + k, features={"maps": True, "fnvals": k % 2 == 1}).program()
     return progs
 
 
